@@ -46,6 +46,9 @@ struct Srv {
     addr: SocketAddr,
     kind: std::sync::Arc<std::sync::atomic::AtomicU8>,
     parked: std::sync::Arc<std::sync::Mutex<Vec<std::net::TcpStream>>>,
+    /// connections taken with a silent kind (hang / slow) so far in this case: what a connection does is
+    /// decided when the accept thread gets to it, and the driver waits for that before the case goes on
+    silent: std::sync::Arc<std::sync::atomic::AtomicUsize>,
 }
 
 fn servers() -> &'static Vec<Srv> {
@@ -58,10 +61,14 @@ fn servers() -> &'static Vec<Srv> {
                 let addr = l.local_addr().unwrap();
                 let kind = std::sync::Arc::new(std::sync::atomic::AtomicU8::new(K_OK));
                 let parked = std::sync::Arc::new(std::sync::Mutex::new(vec![]));
-                let (k2, p2) = (kind.clone(), parked.clone());
+                let silent = std::sync::Arc::new(std::sync::atomic::AtomicUsize::new(0));
+                let (k2, p2, s2) = (kind.clone(), parked.clone(), silent.clone());
                 std::thread::spawn(move || {
                     for s in l.incoming().flatten() {
                         let k = k2.load(std::sync::atomic::Ordering::SeqCst);
+                        if k == K_HANG || k == K_SLOW {
+                            s2.fetch_add(1, std::sync::atomic::Ordering::SeqCst);
+                        }
                         let p3 = p2.clone();
                         std::thread::spawn(move || {
                             let mut s = s;
@@ -92,7 +99,7 @@ fn servers() -> &'static Vec<Srv> {
                         });
                     }
                 });
-                Srv { addr, kind, parked }
+                Srv { addr, kind, parked, silent }
             })
             .collect()
     })
@@ -149,6 +156,8 @@ struct Hc {
     poll: mio::Poll,
     /// (cluster, backend_id, address) -> (kind of the server when the probe was first seen, model time then, timeout)
     seen: std::collections::HashMap<(String, String, SocketAddr), (u8, u64, u64)>,
+    /// probes started towards each scripted server while it was silent
+    silent_started: [usize; 5],
     now: u64,
     timeout: [u64; 2],
 }
@@ -346,6 +355,7 @@ fn run(case: &Case, out: &mut Out) {
         for sv in servers() {
             sv.kind.store(K_OK, std::sync::atomic::Ordering::SeqCst);
             sv.parked.lock().unwrap().clear();
+            sv.silent.store(0, std::sync::atomic::Ordering::SeqCst);
         }
     }
     for op in &case.ops {
@@ -540,6 +550,7 @@ fn run(case: &Case, out: &mut Out) {
                         checker: sozu_lib::health_check::HealthChecker::new(),
                         poll: mio::Poll::new().unwrap(),
                         seen: Default::default(),
+                        silent_started: [0; 5],
                         now: 0,
                         timeout: [0; 2],
                     });
@@ -581,7 +592,13 @@ fn run(case: &Case, out: &mut Out) {
                             let ai = addr_index(ad);
                             let kind = if (10..=14).contains(&ai) { servers()[(ai - 10) as usize].kind.load(std::sync::atomic::Ordering::SeqCst) } else { K_CLOSE };
                             let ci = idx_of(c) as usize;
-                            hc.seen.entry((c.clone(), b.clone(), *ad)).or_insert((kind, hc.now, hc.timeout[ci.min(1)]));
+                            let key = (c.clone(), b.clone(), *ad);
+                            if !hc.seen.contains_key(&key) {
+                                if (kind == K_HANG || kind == K_SLOW) && (10..=14).contains(&ai) {
+                                    hc.silent_started[(ai - 10) as usize] += 1;
+                                }
+                                hc.seen.insert(key, (kind, hc.now, hc.timeout[ci.min(1)]));
+                            }
                         }
                         let present: std::collections::HashSet<(String, String, SocketAddr)> = inflight.iter().map(|(c, b, ad)| (c.clone(), b.clone(), *ad)).collect();
                         hc.seen.retain(|k, _| present.contains(k));
@@ -599,6 +616,14 @@ fn run(case: &Case, out: &mut Out) {
                                 break;
                             }
                         }
+                    }
+                    // a silent server has taken every connection made to it while it was silent (a later `server`
+                    // op must not change what those do)
+                    let t1 = std::time::Instant::now();
+                    while (0..5).any(|i| servers()[i].silent.load(std::sync::atomic::Ordering::SeqCst) < hc.silent_started[i])
+                        && t1.elapsed() < Duration::from_secs(3)
+                    {
+                        std::thread::sleep(Duration::from_millis(1));
                     }
                     // the property: every started probe ends — with the backend's answer, its refusal, or the
                     // timeout, whatever the backend does — and a backend has at most one probe in flight
